@@ -57,7 +57,10 @@ func Paths(full bool) *PathAlphabet {
 	}
 	a.add("wild", JPSimple("wild"))
 	a.add("desc", JPSimple("desc"))
-	a.add("union", JPUnion("a"), JPUnion("a", "x"), JPUnion(0), JPUnion(1, 0), JPUnion(-1, "a"), JPUnion("x", 2, "a", 0), JPUnion(5, "z"))
+	a.add("union", JPUnion("a"), JPUnion("a", "x"), JPUnion(0), JPUnion(1, 0), JPUnion(-1, "a"), JPUnion("x", 2, "a", 0), JPUnion(5, "z"),
+		// members counted from the end, inside and below the arrays of the corpus (lengths 0..5); no two
+		// members of one union ever name the same element (a location named twice is a subject of its own)
+		JPUnion(-5, 1), JPUnion(-2, -6))
 	starts := []int{-5, -2, -1, 0, 1, 3, 5}
 	ends := []int{-5, -2, -1, 0, 2, 4, 5, MaxEnd}
 	steps := []int{1, 2, 3, -1, -2, -3, 0}
